@@ -16,10 +16,27 @@ type c05Input struct {
 	Name   string      `json:"name"`
 	Config [][3]string `json:"config"` // key, value, "file"|"internal"
 	Keys   []string    `json:"keys"`
+	Excl   [][]string  `json:"fullname_exclusions,omitempty"` // keys parsed before .fullname by the same parser
 }
 
 var c05Alphabet = []string{"/", "=", "-", "7", "a", "é", "0", "b", ".", "*", "+", "9", " "}
 var c05Keys = []string{".name", ".fullname", "/a", "/b", "/gomaxprocs", "/7", "/a=", "/é", "/", "/ab", "k", "a", "goos", "é"}
+
+// keys that differ from a special key (.name, .fullname, /gomaxprocs) only by letter case: ordinary keys - a /K is a
+// sub-name key like any other (no trailing -N), a .K is a plain configuration key
+var c05CaseKeys = []string{"/GOMAXPROCS", "/GoMaxProcs", "/Gomaxprocs", "/gomaxProcs", ".NAME", ".Name", ".FullName", ".FULLNAME", ".fullName", "/A"}
+
+// c05Force: keys every case must ask for / candidates of the exclusion sets (set by the case-variant class)
+var c05Force []string
+
+func c05IsCaseKey(k string) bool {
+	for _, c := range c05CaseKeys {
+		if c == k {
+			return true
+		}
+	}
+	return false
+}
 
 func c05Quote(k string) string { return strconv.Quote(k) }
 
@@ -94,11 +111,21 @@ func c05One(o *hx.Out, r *hx.Rng, name string, cfg [][3]string) error {
 	// keys through single-field projections
 	var gets, fm []hx.Sx
 	nk := 4 + r.Intn(4)
-	for j := 0; j < nk; j++ {
-		k := c05Keys[r.Intn(len(c05Keys))]
-		if r.Chance(0.15) && len(cfg) > 0 {
-			k = cfg[r.Intn(len(cfg))][0]
+	caseKey := false
+	for j := 0; j < nk+len(c05Force); j++ {
+		var k string
+		switch {
+		case j >= nk:
+			k = c05Force[j-nk]
+		case r.Chance(0.12):
+			k = c05CaseKeys[r.Intn(len(c05CaseKeys))]
+		default:
+			k = c05Keys[r.Intn(len(c05Keys))]
+			if r.Chance(0.15) && len(cfg) > 0 {
+				k = cfg[r.Intn(len(cfg))][0]
+			}
 		}
+		caseKey = caseKey || c05IsCaseKey(k)
 		in.Keys = append(in.Keys, k)
 		var pp benchproc.ProjectionParser
 		p, err := pp.Parse(c05Quote(k), nil)
@@ -160,8 +187,15 @@ func c05One(o *hx.Out, r *hx.Rng, name string, cfg [][3]string) error {
 		var ex []string
 		var pp benchproc.ProjectionParser
 		cand := []string{"/a", "/b", "/gomaxprocs", ".name", "/7", "/", "k"}
+		pc := 0.3
+		if len(c05Force) > 0 || r.Chance(0.15) {
+			// exclusion sets with keys that differ from .name / /gomaxprocs only by case: they exclude nothing special
+			cand = append([]string{"/gomaxprocs", ".name", "/a"}, c05CaseKeys...)
+			pc = 0.25
+		}
 		for _, c := range cand {
-			if r.Chance(0.3) {
+			if r.Chance(pc) {
+				caseKey = caseKey || c05IsCaseKey(c)
 				ex = append(ex, c)
 				if _, err := pp.Parse(c05Quote(c), nil); err != nil {
 					return err
@@ -174,23 +208,51 @@ func c05One(o *hx.Out, r *hx.Rng, name string, cfg [][3]string) error {
 		}
 		key := p.Project(res)
 		xf = append(xf, hx.L(hx.SList(ex), hx.S(key.Get(p.Fields()[0]))))
+		in.Excl = append(in.Excl, ex)
 	}
 	coq := hx.L(hx.S(name), hx.List(cfgT),
 		hx.B(base), hx.BList(parts), hx.B(Base), hx.List(gets), hx.List(xf), hx.List(fm))
 	nontriv := len(parts) > 0
+	if caseKey {
+		o.Count("class:key-differs-from-special-key-by-letter-case")
+		_, gmp := splitDashN(name)
+		switch lower := strings.ToLower(name); {
+		case gmp && strings.Contains(lower, "/gomaxprocs="):
+			o.Count("class:case-variant-key x name with explicit /gomaxprocs= part (any case) and trailing -N")
+		case gmp:
+			o.Count("class:case-variant-key x name with trailing -N")
+		case strings.Contains(lower, "/gomaxprocs="):
+			o.Count("class:case-variant-key x name with explicit /gomaxprocs= part (any case)")
+		}
+	}
 	o.Count(fmt.Sprintf("parts=%d", min(len(parts), 5)))
 	o.Count(fmt.Sprintf("len=%d", min(len(name), 12)))
 	o.Add(coq, in, name, nontriv)
 	return nil
 }
 
+// splitDashN: does the name end in -digits (for the distribution record only)
+func splitDashN(name string) (string, bool) {
+	i := len(name)
+	for i > 0 && name[i-1] >= '0' && name[i-1] <= '9' {
+		i--
+	}
+	if i == len(name) || i == 0 || name[i-1] != '-' {
+		return name, false
+	}
+	return name[:i-1], true
+}
+
 func genC05(o *hx.Out, r *hx.Rng, tier string, replay string) error {
-	o.Rule = "names over the alphabet {/ = - 7 a é 0 b . *}: exhaustive up to a length bound over a 6-symbol sub-alphabet, then random longer names; each with a random configuration and 4-7 projection/filter keys. non-trivial = name has at least one configuration part; distinct by name; plus HISTORIES of 3-6 names of equal length (separators at different places, /k= moved or absent, -N suffix moving) seen in order by ONE long-lived single-field projection and ONE long-lived literal filter per key and one long-lived .fullname projection with exclusions: a Result whose Name bytes are overwritten in place (also re-sliced from one backing array, and fresh Results as control), and a benchfmt.Reader whose Result is used WITHOUT Clone (plain; with result lines longer than half the scanner buffer; and fed one line per Read with an ignored filler line, so that consecutive result lines land at the same scanner-buffer offset); same-address/same-length pairs are confirmed by pointer comparison and counted"
+	o.Rule = "names over the alphabet {/ = - 7 a é 0 b . *}: exhaustive up to a length bound over a 6-symbol sub-alphabet, then random longer names; each with a random configuration and 4-7 projection/filter keys. non-trivial = name has at least one configuration part; distinct by name; KEYS THAT DIFFER FROM A SPECIAL KEY ONLY BY LETTER CASE (/GOMAXPROCS /GoMaxProcs /Gomaxprocs /gomaxProcs .NAME .Name .FullName .FULLNAME .fullName /A): 12% of the keys of every case, in 15% of the .fullname exclusion sets, and a class of their own (two such keys + /gomaxprocs + .name or .fullname per case, exclusion sets drawn from them) over names with an explicit /gomaxprocs= part in exact or other case and/or a trailing -N, the configuration holding .NAME/.FullName as ordinary keys; the .fullname exclusions are judged by prop_ok (only the exact /gomaxprocs removes -N, only the exact .name stars the base); plus HISTORIES of 3-6 names of equal length (separators at different places, /k= moved or absent, -N suffix moving) seen in order by ONE long-lived single-field projection and ONE long-lived literal filter per key and one long-lived .fullname projection with exclusions: a Result whose Name bytes are overwritten in place (also re-sliced from one backing array, and fresh Results as control), and a benchfmt.Reader whose Result is used WITHOUT Clone (plain; with result lines longer than half the scanner buffer; and fed one line per Read with an ignored filler line, so that consecutive result lines land at the same scanner-buffer offset); same-address/same-length pairs are confirmed by pointer comparison and counted"
 	mkcfg := func() [][3]string {
 		var cfg [][3]string
 		n := r.Intn(4)
 		for i := 0; i < n; i++ {
 			k := []string{"k", "a", "goos", "é", "pkg"}[r.Intn(5)]
+			if r.Chance(0.15) {
+				k = []string{".NAME", ".Name", ".FullName", ".FULLNAME", ".fullName"}[r.Intn(5)] // ordinary keys
+			}
 			dup := false
 			for _, c := range cfg {
 				if c[0] == k {
@@ -236,7 +298,8 @@ func genC05(o *hx.Out, r *hx.Rng, tier string, replay string) error {
 	// crafted shapes: repeated sub-name keys, empty values, empty segments, explicit and trailing GOMAXPROCS
 	for _, name := range []string{"X/a=1/a=2", "X/a=/a=2", "X/a=1/a=", "X/b=1/a=1/b=2", "X/gomaxprocs=2/gomaxprocs=4",
 		"X/gomaxprocs=2-8", "X/gomaxprocs=-8", "X//a=1", "X/a=1//b=2-8", "//", "X//", "/a=1/a=2", "X/a=1/a=2-16", "X/ab=1/a=2",
-		"X/a/a=2", "X/a=1/b=2/a=3/b=4", "X-8/a=1", "X/a=x-", "X/7=1/7=2"} {
+		"X/a/a=2", "X/a=1/b=2/a=3/b=4", "X-8/a=1", "X/a=x-", "X/7=1/7=2",
+		"X/GOMAXPROCS=2-8", "X/GOMAXPROCS=2", "X/GoMaxProcs=4/gomaxprocs=2-16", "X/gomaxprocs=2/GOMAXPROCS=3", "X/Gomaxprocs=7-4", "X/A=1/a=2-8"} {
 		for rep := 0; rep < 3; rep++ {
 			if err := c05One(o, r, name, mkcfg()); err != nil {
 				return err
@@ -245,15 +308,40 @@ func genC05(o *hx.Out, r *hx.Rng, tier string, replay string) error {
 	}
 	nrand := 600
 	nhist := 900
+	ncase := 400
 	if tier == "thorough" {
 		nrand = 6000
 		nhist = 18000
+		ncase = 6000
+	}
+	// keys differing from a special key only by letter case, on names with a trailing -N and/or an explicit
+	// /gomaxprocs= part (exact or in another case), the configuration holding such .K keys as ordinary keys
+	for i := 0; i < ncase; i++ {
+		name := []string{"X", "Fib", "Copy/a=1", "é", "X/A=3"}[r.Intn(5)]
+		for j := r.Intn(3); j > 0; j-- {
+			name += []string{"/gomaxprocs=2", "/GOMAXPROCS=3", "/GoMaxProcs=4", "/Gomaxprocs=", "/a=2", "/gomaxProcs=5", "/A=7"}[r.Intn(7)]
+		}
+		if r.Chance(0.7) {
+			name += []string{"-8", "-16", "-1", "-007"}[r.Intn(4)]
+		}
+		cfg := mkcfg()
+		for _, k := range []string{".NAME", ".FullName", ".Name", ".FULLNAME"} {
+			if r.Chance(0.35) {
+				cfg = append(cfg, [3]string{k, []string{"cfgv", "X", "other-8"}[r.Intn(3)], []string{"file", "internal"}[r.Intn(2)]})
+			}
+		}
+		c05Force = []string{c05CaseKeys[r.Intn(len(c05CaseKeys))], c05CaseKeys[r.Intn(len(c05CaseKeys))], "/gomaxprocs", []string{".name", ".fullname"}[r.Intn(2)]}
+		err := c05One(o, r, name, cfg)
+		c05Force = nil
+		if err != nil {
+			return err
+		}
 	}
 	// histories: long-lived projections / filters over consecutive results at the same address
 	if err := c05GenHist(o, r, nhist); err != nil {
 		return err
 	}
-	pieces := []string{"/a=", "/b=", "/gomaxprocs=", "-", "-8", "-16", "/", "Fib", "/a", "=", "7", "é", "/7=", "/ab=", "x", "*",
+	pieces := []string{"/GOMAXPROCS=2", "/GoMaxProcs=", "/A=1", "/a=", "/b=", "/gomaxprocs=", "-", "-8", "-16", "/", "Fib", "/a", "=", "7", "é", "/7=", "/ab=", "x", "*",
 		"/a=1", "/a=2", "/a=", "/b=x", "/gomaxprocs=2", "/gomaxprocs=4", "//", "/a=1/a=2", "/b=/b=y",
 		"-99999999999999999999", "-18446744073709551616", "-+4", "-0", "-007", "+", "-9223372036854775808", "1234567890123456789012", "-٣", "-1e3", "-0x10", "-1_0"}
 	for i := 0; i < nrand; i++ {
